@@ -5,6 +5,7 @@ import (
 	"io"
 	"strconv"
 
+	_ "github.com/ipld/go-ipld-prime/codec/raw"
 	"github.com/ipld/go-ipld-prime/datamodel"
 	"github.com/ipld/go-ipld-prime/linking"
 	"github.com/ipld/go-ipld-prime/node/basicnode"
@@ -22,9 +23,18 @@ type GraphSpec struct {
 	Tree  ref.Val `json:"tree"`
 	Cuts  []int   `json:"cuts,omitempty"`
 	Codec uint64  `json:"codec,omitempty"` // 0 = dag-cbor
+	// Twins: every cut block is linked a second time, right after the first link in the same parent
+	// (next list element / entry "<key>~raw"), by the CID that names the same multihash under the raw
+	// codec: two different links, one hash, the second loading as a bytes node.
+	Twins bool `json:"raw_twins,omitempty"`
 }
 
-func (g GraphSpec) String() string { return fmt.Sprintf("%s cuts=%v", g.Tree, g.Cuts) }
+func (g GraphSpec) String() string {
+	if g.Twins {
+		return fmt.Sprintf("%s cuts=%v +raw twins", g.Tree, g.Cuts)
+	}
+	return fmt.Sprintf("%s cuts=%v", g.Tree, g.Cuts)
+}
 
 var blockProto = lsx.Proto{Version: 1, Codec: 0x71, MhType: mh.SHA2_256, MhLength: -1}
 
@@ -65,6 +75,7 @@ func Build(spec GraphSpec) *Built {
 		cut[c] = true
 	}
 	idx := 0
+	twin := map[string]string{}
 	var rec func(v ref.Val) ref.Val
 	rec = func(v ref.Val) ref.Val {
 		my := idx
@@ -74,12 +85,20 @@ func Build(spec GraphSpec) *Built {
 		case ref.KList:
 			out = ref.List()
 			for _, c := range v.L {
-				out.L = append(out.L, rec(c))
+				cv := rec(c)
+				out.L = append(out.L, cv)
+				if tw, ok := twin[cv.S]; ok && cv.K == ref.KLink {
+					out.L = append(out.L, ref.Link(tw))
+				}
 			}
 		case ref.KMap:
 			out = ref.Map()
 			for _, e := range v.M {
-				out.M = append(out.M, ref.Entry{K: e.K, V: rec(e.V)})
+				cv := rec(e.V)
+				out.M = append(out.M, ref.Entry{K: e.K, V: cv})
+				if tw, ok := twin[cv.S]; ok && cv.K == ref.KLink {
+					out.M = append(out.M, ref.Entry{K: e.K + "~raw", V: ref.Link(tw)})
+				}
 			}
 		}
 		if cut[my] && my != 0 {
@@ -90,6 +109,13 @@ func Build(spec GraphSpec) *Built {
 			bin := lsx.LinkBin(l)
 			b.G.Blocks[bin] = canonFor(proto.Codec, out)
 			b.Links = append(b.Links, bin)
+			if spec.Twins {
+				tw := lsx.RawTwin(bin)
+				st.M[tw] = st.M[bin]
+				b.G.Blocks[tw] = ref.Bytes(string(st.M[bin]))
+				b.Links = append(b.Links, tw)
+				twin[bin] = tw
+			}
 			return ref.Link(bin)
 		}
 		return out
@@ -118,6 +144,9 @@ type WalkOpts struct {
 	HaveStartAt bool
 	Once        bool
 	Skip        map[string]bool // links the loader answers with SkipMe
+	// PackageLevel: the package-level functions traversal.WalkAdv / WalkMatching / WalkTransforming
+	// (a zero Progress: no link system, no controls) instead of the Progress methods
+	PackageLevel bool
 }
 
 func NoOpts() WalkOpts { return WalkOpts{NodeBudget: -1, LinkBudget: -1} }
@@ -164,6 +193,29 @@ func RunWalk(b *Built, root datamodel.Node, s selector.Selector, o WalkOpts) Lib
 	}
 	var err error
 	pan := core.Guard(func() {
+		if o.PackageLevel {
+			switch {
+			case o.Transforming:
+				out.Result, err = traversal.WalkTransforming(root, s, func(p traversal.Progress, n datamodel.Node) (datamodel.Node, error) {
+					v, _ := ref.Read1(n)
+					out.Visits = append(out.Visits, Visit{p.Path.String(), 'm', v, p.Path.Segments()})
+					return n, nil
+				})
+			case o.Matching:
+				err = traversal.WalkMatching(root, s, func(p traversal.Progress, n datamodel.Node) error {
+					v, _ := ref.Read1(n)
+					out.Visits = append(out.Visits, Visit{p.Path.String(), 'm', v, p.Path.Segments()})
+					return nil
+				})
+			default:
+				err = traversal.WalkAdv(root, s, func(p traversal.Progress, n datamodel.Node, r traversal.VisitReason) error {
+					v, _ := ref.Read1(n)
+					out.Visits = append(out.Visits, Visit{p.Path.String(), byte(r), v, p.Path.Segments()})
+					return nil
+				})
+			}
+			return
+		}
 		if o.Transforming {
 			keys := map[string]bool{}
 			for k := range b.Store.M {
